@@ -16,10 +16,12 @@ import (
 	"sort"
 	"strings"
 	"sync"
+	"testing/fstest"
 	"time"
 
 	"github.com/risor-io/risor"
 	"github.com/risor-io/risor/compiler"
+	"github.com/risor-io/risor/importer"
 	"github.com/risor-io/risor/object"
 	"github.com/risor-io/risor/op"
 	ros "github.com/risor-io/risor/os"
@@ -366,6 +368,10 @@ func worker(kind string, data json.RawMessage) any {
 			o.Fail = append(o.Fail, f)
 		}
 	}
+	if c.Kind == "probes" {
+		runProbes(o, addFail)
+		return o
+	}
 	timeouts := 0
 	for i := c.From; i < c.From+c.N && timeouts < 2; i++ {
 		if c.Kind == "scaled" {
@@ -500,6 +506,78 @@ func worker(kind string, data json.RawMessage) any {
 	return o
 }
 
+// runProbes: fixed source programs for shapes the generator does not produce.
+func runProbes(o *out, addFail func(failure)) {
+	type probe struct {
+		name, sig, src string
+		modules        map[string]string
+		wantResult     string
+	}
+	probes := []probe{
+		// importing file-based modules must not leave their last value on the importer's stack
+		{name: "import-module-value", sig: "import-leaves-module-value-on-stack", src: "import modm\nimport modn as q\nfrom modm import f\n[modm.f(2), q.g(3), f(4)]", wantResult: "list:[3, 9, 5]",
+			modules: map[string]string{"modm.risor": "func f(x) { return x + 1 }\n\"the module's last value\"\n", "modn.risor": "func g(x) { return x * 3 }\n[1, 2, 3]\n"}},
+		{name: "import-in-loop", sig: "import-leaves-module-value-on-stack", src: "t := 0\nfor i := 0; i < 1500; i++ {\n  import modm\n  t += modm.f(i)\n}\nt", wantResult: "int:1125750",
+			modules: map[string]string{"modm.risor": "func f(x) { return x + 1 }\n99\n"}},
+		// recorded finding: break/continue inside an expression that already has operands on the stack
+		{name: "continue-inside-list-literal", sig: "control-flow-out-of-expression-with-pending-operands", src: "x := 0\nfor i := 0; i < 3000; i++ {\n  y := [1, 2, if i % 2 == 0 { continue } else { 3 }]\n  x++\n}\nx", wantResult: "int:1500"},
+		{name: "break-inside-call-arguments", sig: "control-flow-out-of-expression-with-pending-operands", src: "x := 0\nfor j := 0; j < 1500; j++ {\n  for i := 0; i < 2; i++ {\n    x += len([7, 8, if i == 1 { break } else { 9 }])\n  }\n}\nx", wantResult: "int:4500"},
+	}
+	for _, pr := range probes {
+		o.Programs++
+		res, finalSP, errText := runProbe(pr.src, pr.modules)
+		switch {
+		case errText != "":
+			addFail(failure{Sig: pr.sig, Detail: fmt.Sprintf("probe %s: %s", pr.name, errText), Source: pr.src})
+		case res != pr.wantResult:
+			addFail(failure{Sig: pr.sig + ":wrong-result", Detail: fmt.Sprintf("probe %s: result %s, expected %s", pr.name, res, pr.wantResult), Source: pr.src})
+		case finalSP != 0:
+			addFail(failure{Sig: pr.sig, Detail: fmt.Sprintf("probe %s: sp after the run is %d (expected 0)", pr.name, finalSP), Source: pr.src})
+		default:
+			o.Finished++
+		}
+		o.Sigs = append(o.Sigs, "probe:"+pr.name)
+	}
+}
+
+func runProbe(src string, modules map[string]string) (result string, finalSP int, errText string) {
+	ctx, cancel := context.WithTimeout(context.Background(), 20*time.Second)
+	defer cancel()
+	defer func() {
+		if r := recover(); r != nil {
+			errText = fmt.Sprintf("go panic: %v", r)
+		}
+	}()
+	opts := []risor.Option{risor.WithOS(ros.NewVirtualOS(ctx))}
+	var cfg *risor.Config
+	if len(modules) > 0 {
+		mfs := fstest.MapFS{}
+		for name, text := range modules {
+			mfs[name] = &fstest.MapFile{Data: []byte(text)}
+		}
+		names := risor.NewConfig().GlobalNames()
+		imp := importer.NewFSImporter(importer.FSImporterOptions{GlobalNames: names, SourceFS: mfs, Extensions: []string{".risor"}})
+		opts = append(opts, risor.WithImporter(imp))
+	}
+	cfg = risor.NewConfig(opts...)
+	prog, err := parser.Parse(ctx, src)
+	if err != nil {
+		return "", 0, err.Error()
+	}
+	code, err := compiler.Compile(prog, cfg.CompilerOpts()...)
+	if err != nil {
+		return "", 0, err.Error()
+	}
+	machine := vm.New(code, cfg.VMOpts()...)
+	if err := machine.Run(ctx); err != nil {
+		return "", machine.VerifSP(), err.Error()
+	}
+	if tos, ok := machine.TOS(); ok && tos != nil {
+		result = rz.RenderObj(tos)
+	}
+	return result, machine.VerifSP(), ""
+}
+
 func drive(d *mon.Driver, replay string) int {
 	d.Rule = "programs from the engine's generator (control-heavy mixes: all loop forms x switch/if/nested loops/function literals x break/continue/return, inside functions and at top level, try/defer) are (1) compiled and every code object's control-flow graph is abstractly interpreted with the pinned stack effect of each opcode (heights must agree on every path, never go negative, >=1 at return, exactly 1 at the end of main), (2) instrumented with a host call between all statements that samples VerifSP()-VerifFrameBaseSP() (one constant per site over the whole run; sp==0 after a finished run), (3) as loop-dominated programs run with bounds 10, 3000 and 100000 and compared with the reference interpreter. distinct+non-trivial: new feature signature containing a loop with a nested control statement (or break/continue inside a nesting chain)"
 	d.Assume = []string{"the per-opcode stack effects are pinned from vm.eval at the pinned commit (ForIter has two successors with different effects; ReturnValue/Halt are terminal)", "hooks: vm.VerifSP/VerifFrameBaseSP (build tag verif)"}
@@ -520,6 +598,7 @@ func drive(d *mon.Driver, replay string) int {
 			mix := []int{1, 1, 3, -1}[(from/per)%4]
 			cases = append(cases, mon.NewCase(fmt.Sprintf("code-%d", from), "code+depth", caseData{Batch: eng.Batch{Seed: seed1, From: from, N: per, Mix: mix}, Kind: "code+depth"}))
 		}
+		cases = append(cases, mon.NewCase("probes", "probes", caseData{Kind: "probes"}))
 		nScaled := d.N(160, 6000)
 		perS := 10
 		for from := 0; from < nScaled; from += perS {
